@@ -34,7 +34,7 @@ CHECKS = {
         text=("Same node tables, structural clauses: every node occurs once, groups non-empty, Token.parent = containing group, cached "
               "value = text, leaves = lexer tokens (re-typing only Wildcard/Operator -> Operator); the navigation helpers (token_next/"
               "token_prev with all flag combinations, token_first, token_index, get_token_at_offset for every offset, within, "
-              "has_ancestor, is_child_of) are called on the real tree and TLC recomputes every answer with the TokenTree.tla operators."),
+              "has_ancestor, is_child_of; within with base classes and tuples, token_index with its start argument) are called on the real tree and TLC recomputes every answer with the TokenTree.tla operators. GroupInfix.tla (the _group joiner with its index bookkeeping) and TreeOps.tla (group_tokens) are model checked and BOUND to the code: all their behaviours up to the bound are replayed into the real functions."),
         design_ref='DESIGN.md §5 C03',
         note='trusted: TLC, projection code; navigation queries are sampled on larger trees (all on small ones)',
         technique='TLC trace validation of projected parse trees and navigation answers against TokenTree.tla'),
@@ -127,7 +127,10 @@ CHECKS = {
         text=("SqlGen.tla annotates every object reference it derives with its name / qualifier / alias spans; programs (start symbols "
               "RefProbe and Script) are spelled with unquoted, double-quoted and backtick names, with and without AS, under blank/tab/"
               "line-break gaps. For every reference in a context the property names, TLC (TraceAccessors.tla) requires an Identifier "
-              "node whose get_real_name/get_parent_name/get_alias/get_name/has_alias equal the written parts with quotes removed."),
+              "node whose get_real_name/get_parent_name/get_alias/get_name/has_alias equal the written parts with quotes removed. "
+              "Accessors.tla transcribes the accessor code line by line: TLC checks it for all written reference shapes and its answers on "
+              "every token list up to the bound are compared with the real classes (binding). One list of a program is also replicated "
+              "past 10000 tokens (the result must not depend on the other items)."),
         design_ref='DESIGN.md §5 C12',
         note='name pools are verified against the keyword dictionaries; programs are sampled by TLC -simulate',
         technique='TLA+ grammar with structure annotations (TLC-generated programs) + TLC validation of accessor results'),
@@ -161,13 +164,15 @@ CHECKS = {
               "(grouping passes, every filter, serialiser) for 9 entry points/option sets - outcome must be SQLParseError when the fault "
               "was reached and later calls must give pristine results. Real depth: 10 nesting constructs x depths up to 1000 (thorough: "
               "10000) x recursion limits x entry points in subprocesses (exit status, outcome, later call, iterative round-trip check). "
-              "TLC (TracePipeline.tla) decides every case."),
+              "Also: the FIRST library call and the FIRST formatting call of a fresh process made with (almost) no stack left, one subprocess per "
+              "depth, later calls compared with a process that never saw deep input. TLC (TracePipeline.tla) decides every case."),
         design_ref='DESIGN.md §5 C15',
         note='C-level stack exhaustion is visible only as subprocess exit status; a per-case timeout counts as not explored',
         technique='TLA+ pipeline model (TLC) + fault enumeration on real callables + deep-nesting subprocess runs validated by TLC'),
     'C16': dict(
         category='model_checking',
-        text=("For every rule of the working tree's table an NFA is extracted from its sre parse tree (one macro edge per distinct "
+        text=("For every regular expression the library runs (the patterns compiled into the default lexer, every re.Pattern reachable from the "
+              "package's modules, every pattern compiled on the fly during a formatting workload) an NFA is extracted from its sre parse tree (one macro edge per distinct "
               "backtracking choice sequence; epsilon closure without empty loop iterations) and emitted as TLA+ constants; TLC explores "
               "the product automaton (RegexNFA.tla) for the classical exponential-ambiguity criterion (two different paths q -w-> q) and "
               "reports every ambiguous (rule, pivot). The same run must flag six known-bad patterns (incl. the pre-0.4.4 string rule) and "
@@ -214,7 +219,9 @@ CHECKS = {
               "source hooks): every single pre-emption at each abstract state change in both orders, sampled double pre-emptions and "
               "3-thread runs; each run's projected singleton states are validated by TLC (TraceLexerInit.tla). ApiHistory.tla enumerates "
               "all operation histories up to the bound (raising calls, abandoned generators, RecursionError, lexer reconfiguration, "
-              "clear, default_initialization); each is replayed and a reference battery compared with the pristine digest."),
+              "clear, default_initialization, edited result trees, interleaved streams, byte input, calls drawn from a generated pool of SqlGen "
+              "programs); each is replayed and followed by reference calls in random order, every answer compared with what the same call "
+              "returns as the first call of a forked fresh process."),
         design_ref='DESIGN.md §5 C20',
         note='pre-emption granularity = Python line events in lexer.py; concurrent parse/format on an initialised lexer is covered by the battery only sequentially',
         technique='TLA+ thread-interleaving model (TLC exhaustive) + controlled real-thread schedules validated by TLC + TLC-enumerated API histories replayed'),
